@@ -417,7 +417,8 @@ func ruleC03_6(c *Ctx) {
 		for i := 0; i < st.NumFields(); i++ {
 			f := st.Field(i)
 			cleared := false
-			allInstrs(put, func(in ssa.Instruction) {
+			// (the clearing may live in a helper of Put: `m.reset(); p.Pool.Put(m)`)
+			p.allInstrsDeep(put, func(in ssa.Instruction) {
 				s, ok := in.(*ssa.Store)
 				if !ok {
 					return
@@ -426,7 +427,8 @@ func ruleC03_6(c *Ctx) {
 				if !ok || fieldVar(fa.X.Type(), fa.Field) != f || strip(fa.X) != ssa.Value(put.Params[1]) {
 					return
 				}
-				if !dominatesInstr(in, poolPut) {
+				li := lift(in, put)
+				if li == nil || !dominatesInstr(li, poolPut) || (li != in && !onEveryPath(in)) {
 					return
 				}
 				switch v := s.Val.(type) {
@@ -524,7 +526,7 @@ func ruleC03_6(c *Ctx) {
 		for _, fname := range []string{"Body", "Fd2Slot"} {
 			f := p.Field(pkgCore, "Msg", fname)
 			fresh := false
-			allInstrs(dec, func(in ssa.Instruction) {
+			p.allInstrsDeep(dec, func(in ssa.Instruction) {
 				if s, ok := in.(*ssa.Store); ok {
 					if fa, ok := s.Addr.(*ssa.FieldAddr); ok && fieldVar(fa.X.Type(), fa.Field) == f {
 						if _, isMake := s.Val.(*ssa.MakeMap); isMake {
